@@ -132,7 +132,7 @@ def add_scaled(total, c, n):
 
 
 def clean(total):
-    d = {k: v for k, v in total.items() if v != 0 and k != "Q"}
+    d = {k: total[k] for k in sorted(total) if total[k] != 0 and k != "Q"}
     d["Q"] = total.get("Q", 0)
     return d
 
@@ -242,15 +242,14 @@ def fit_cause(imputed_products):
 
 def check_vector(job):
     """worker: one element vector x all charges through (ii) (iii) (iv).
-    job = (db name, ((element, n), ...), full)   full: run every configuration even when
+    job = (db name, ((element, n), ...), full, charges)   full: run every configuration even when
     the raw search finds nothing (otherwise the remaining configurations, which repeat the
     same search, are run only for vectors with at least one completion)."""
     from synrbl.SynRuleImputer.synthetic_rule_matcher import SyntheticRuleMatcher
     from synrbl.SynRuleImputer.synthetic_rule_imputer import SyntheticRuleImputer
     from synrbl.SynRuleImputer.synthetic_rule_constraint import RuleConstraint
 
-    dbname, vt, full = job[0], job[1], job[2]
-    qs = job[3] if len(job) > 3 else QS
+    dbname, vt, full, qs = job
     rules = load_db(dbname)
     by_smiles, by_canon = db_index(dbname)
     ban, _ = ban_list()
@@ -284,7 +283,7 @@ def check_vector(job):
                 why = check_solution(sol, want, by_smiles)
                 if why:
                     bad("matcher", {"select": sel, "ranking": rk}, sol, want, why[0],
-                        "vector {} select={} ranking={}: {}".format(want, sel, rk, why[1]))
+                        "{} db, vector {} select={} ranking={}: {}".format(dbname, want, sel, rk, why[1]))
             first[(sel, rk)] = sols[0] if sols and isinstance(sols[0], list) else None
             return sols
 
@@ -355,7 +354,8 @@ def check_vector(job):
                         d = vec_diff(got, want)
                         kind = "charge" if all(k == "Q" for k, v in d.items() if v != 0) else "element"
                         bad("impute", extra, obs, want, ["impute", "sum", kind],
-                            "vector {} side {}: added molecules sum to {}".format(want, side, got))
+                            "{} db, vector {} side {} ({}/{}): added molecules sum to {}".format(
+                                dbname, want, side, sel, rk, got))
                         continue
                     if f is None or added != sol_molecules(f):
                         bad("impute", extra, obs, f, ["impute", "not-one-completion"],
@@ -380,7 +380,7 @@ def check_vector(job):
                             "fit returned the reaction in neither list")
                     for acc, lst in ((True, certain), (False, uncertain)):
                         for e in lst:
-                            problem = fit_entry_problem(e, r0, p0, before)
+                            problem = fit_entry_problem(e, r0, p0, before, accepted=acc)
                             if problem is None:
                                 continue
                             if not acc:
@@ -391,12 +391,12 @@ def check_vector(job):
                                 pkey = pkey + [fit_cause((out.get("imputed") or {}).get("products", ""))]
                             bad("fit", extra, {k: e.get(k) for k in ("reactants", "products", "new_reaction")},
                                 {"before": out["new_reaction"], "products-reactants": before}, pkey,
-                                "vector {} side {} base {}>>{}: {} -> fit -> {}: {}".format(
-                                    want, side, r0, p0, out["new_reaction"], e.get("new_reaction"), ptext))
+                                "{} db, vector {} side {} ({}/{}): {} -> fit -> {}: {}".format(
+                                    dbname, want, side, sel, rk, out["new_reaction"], e.get("new_reaction"), ptext))
     return cnt, bads
 
 
-def fit_entry_problem(e, r0, p0, before):
+def fit_entry_problem(e, r0, p0, before, accepted=True):
     """What is wrong with an entry returned by fit, or None.  `before` = comp(products) -
     comp(reactants) of the imputed reaction."""
     r, p = e.get("reactants"), e.get("products")
@@ -407,7 +407,7 @@ def fit_entry_problem(e, r0, p0, before):
         return ["fit", "unparsable"], "a side does not parse after fit"
     if not oracle.multiset_leq(oracle.mols(r0), mr) or not oracle.multiset_leq(oracle.mols(p0), mp):
         return ["fit", "given-molecule-lost"], "a compound of the given reaction disappeared"
-    for m in (mp - oracle.mols(p0)):
+    for m in (mp - oracle.mols(p0)) if accepted else ():
         if is_dihalogen(m):
             return ["fit", "halogen-accepted"], "added product {} is a dihalogen".format(m)
     after = vec_diff(comp_of_counter(mp), comp_of_counter(mr))
@@ -566,8 +566,37 @@ def to_violation(b):
     return Violation(b["sub"], b["case"], b.get("observed"), b.get("expected"), b["key"], b["what"])
 
 
+def compound_sums(name, k, max_atoms):
+    """[(vector tuple, Q)] of all sums of exactly k database compounds (distinct
+    compositions, with repetition) that have at most max_atoms atoms"""
+    by_smiles, _ = db_index(name)
+    comps = sorted({tuple(sorted(c.items())) for c in by_smiles.values()})
+    out = set()
+    for ms in itertools.combinations_with_replacement(comps, k):
+        t = {}
+        for c in ms:
+            for e, n in c:
+                t[e] = t.get(e, 0) + n
+        q = t.pop("Q", 0)
+        vt = tuple(sorted((e, n) for e, n in t.items() if n))
+        if max_atoms is None or n_atoms(vt) <= max_atoms:
+            out.add((vt, q))
+    return sorted(out, key=lambda x: (n_atoms(x[0]), x))
+
+
+# (k compounds, max atoms) of the compound-sum family per tier and database: the search is
+# exponential in the size of the vector for the 51-record database
+SUMS = {
+    ("quick", "shipped"): ((1, None), (2, 8)),
+    ("quick", "automated"): ((1, None), (2, None)),
+    ("thorough", "shipped"): ((1, None), (2, 10), (3, 7)),
+    ("thorough", "automated"): ((1, None), (2, None), (3, None)),
+}
+
+
 def spaces(tier):
-    """[(db, vector tuple, full)] in simplest-first order, and the bounds used"""
+    """[(db, vector tuple, full, charges)] in simplest-first order per family, and the
+    bounds used"""
     if tier == "thorough":
         full_bound, bound = 4, 5
     else:
@@ -575,11 +604,21 @@ def spaces(tier):
     jobs = []
     for name in ("shipped", "automated"):
         els = db_elements(name)
+        seen = set()
         for n in range(0, bound + 1):
             for t in layer(els, n):
-                jobs.append((name, t, n <= full_bound))
+                jobs.append((name, t, n <= full_bound, QS))
+                seen.add(t)
         for t in hrich(els, bound):
-            jobs.append((name, t, True))
+            jobs.append((name, t, True, QS))
+            seen.add(t)
+        extra = set()
+        for k, max_atoms in SUMS[(tier, name)]:
+            for vt, q in compound_sums(name, k, max_atoms):
+                if (vt in seen and q in QS) or (vt, q) in extra:
+                    continue
+                extra.add((vt, q))
+                jobs.append((name, vt, True, (q,)))
     return jobs, full_bound, bound
 
 
@@ -604,7 +643,8 @@ def run(tier, seed):
         for k, v in cnt.items():
             tot[k] = tot.get(k, 0) + v
         bads.extend(bb)
-    bads.sort(key=lambda b: (sum(b["case"]["vector"].values()), json.dumps(b["case"], sort_keys=True)))
+    bads.sort(key=lambda b: (sum(b["case"]["vector"].values()), b["case"]["db"] != "shipped",
+                             json.dumps(b["case"], sort_keys=True)))
     per_key = {}
     for b in bads:
         k = json.dumps(b["key"])
